@@ -88,3 +88,9 @@ func VHJSONLoad() {
 	c, _ := VGSet()
 	containers.VJSONLoad(vJSON(c))
 }
+
+// VHHistory: D operations in a row from the constructor (see VMapHistory).
+func VHHistory() {
+	s := New[int]()
+	sets.VSetHistory(s, false, "HashSet", func() { v.Assert(s.items != nil, "inv-map-nil") })
+}
